@@ -2,6 +2,8 @@ import SSVerif.Model.JsonFmt3
 import SSVerif.Proofs.JsonFmt3Valid
 import SSVerif.Proofs.Dbl
 import SSVerif.Proofs.DblExact
+import SSVerif.Proofs.DblMono
+import SSVerif.Proofs.DblBudget
 import SSVerif.Props.C14
 /-!
 # C14, the decimal rendering — `%.3f` as a proved function instead of an observed parameter
@@ -90,10 +92,10 @@ theorem C14_fmt3_len_finite (neg : Bool) (m : Nat) (e : Int) :
     (fmt3 neg m e).length = (if neg then 1 else 0) + ndig (milli m e / 1000) + 4 := length_fmt3 neg m e
 
 /-- `NumOK` for the instantiated formatter is finiteness of the argument values -/
-theorem numOK_fmtOf (val : Num → Nat) (h : ∀ a, isFiniteBits (val a) = true) : NumOK (fmtOf val) :=
+private theorem numOK_fmtOf (val : Num → Nat) (h : ∀ a, isFiniteBits (val a) = true) : NumOK (fmtOf val) :=
   fun a => (C14_fmtBits_json_iff_finite (val a)).mpr (h a)
 
-theorem finite_valOfTable (t : List (Num × Nat)) (h : (t.all fun kv => isFiniteBits kv.2) = true) (a : Num) :
+private theorem finite_valOfTable (t : List (Num × Nat)) (h : (t.all fun kv => isFiniteBits kv.2) = true) (a : Num) :
     isFiniteBits (valOfTable t a) = true := by
   unfold valOfTable
   cases hf : t.find? (fun kv => kv.1 = a) with
@@ -271,6 +273,49 @@ theorem C14_duration_field_close (start : Nat) (prob : Int → Nat) (n fr : Nat)
       2048 * (2 * (k * fr)) ≤ 2048 * (2000 * n) + 2049 * fr ∧ 2048 * (2000 * n) ≤ 2048 * (2 * (k * fr)) + 2049 * fr :=
   SSVerif.Dbl.fmt_ratio_close n fr hfr hn
 
+/-- **Begin times never go backwards.**  For every finite start offset (any sign, any magnitude), every frame rate
+`fr ≥ 1` and frame numbers `0 ≤ f1 ≤ f2` (C `int`s), the decimal printed for `"b"` of the earlier frame is at most the
+decimal printed for the later one (both read back as signed thousandths): division, addition and the decimal
+rounding are each monotone, so successive segments, words, phones and states carry non-decreasing begin fields. -/
+theorem C14_begin_fields_monotone (start : Nat) (prob : Int → Nat) (hs : isFiniteBits start = true)
+    (f1 f2 fr : Nat) (hfr : 1 ≤ fr) (h12 : f1 ≤ f2) (h2 : f2 ≤ 2 ^ 31) :
+    ∃ n1 k1 n2 k2,
+      readMilli ((fmtOf (valOf start prob)).num (.time (f1 : Int) (fr : Int))) = some (n1, k1) ∧
+      readMilli ((fmtOf (valOf start prob)).num (.time (f2 : Int) (fr : Int))) = some (n2, k2) ∧
+      (if n1 = true then -((k1 : Nat) : Int) else (k1 : Int)) ≤ (if n2 = true then -((k2 : Nat) : Int) else (k2 : Int)) :=
+  SSVerif.Dbl.time_mono start hs f1 f2 fr hfr h12 h2
+
+/-- **Error budget of a begin field, for every finite start offset.**  Work in units of `2^-1074` s (every finite
+double is a whole number of them).  Let `A` be the magnitude of the start offset (`ma·2^(ea+1074)`, sign `na`),
+`U = roundVal f fr` the quotient `(double)f / fr`, `Z = ±A + U` the *exact* sum, `V = roundVal |Z| (2^1074)` the sum
+as a double and `k` the thousandths printed for `"b"`.  Then each of the three roundings between `start + f/fr` and the
+printed decimal is off by at most half of its own unit:
+`|U − f·2^1074/fr| ≤ ulp(U)/2`, `|V − |Z|| ≤ ulp(V)/2`, `|k/1000 − V·2^-1074| ≤ 1/2000`
+(cross-multiplied below, `ulp = 2^ulpB`), the printed sign is the sign of the exact sum (`-0.000` only for a negative
+sum), and an exact sum of zero prints `0.000`.  By `C14_ulp_relative` an ulp is at most `2^-52` of the value it
+belongs to, so `|b − (start + f/fr)| ≤ 1/2000 + 2^-53·(f/fr + |start + f/fr|)` up to denormal ulps. -/
+theorem C14_begin_field_error_budget (start : Nat) (prob : Int → Nat) (hs : isFiniteBits start = true)
+    (f fr : Nat) (hfr : 1 ≤ fr) (hf : f ≤ 2 ^ 31) :
+    ∃ (na : Bool) (ma : Nat) (ea : Int) (Z : Int) (neg : Bool) (k : Nat),
+      ofBits start = some (na, ma, ea) ∧
+      Z = (if na = true then -((ma * 2 ^ (ea + 1074).toNat : Nat) : Int) else ((ma * 2 ^ (ea + 1074).toNat : Nat) : Int)) +
+            ((SSVerif.Dbl.roundVal f fr : Nat) : Int) ∧
+      (2 * (SSVerif.Dbl.roundVal f fr * fr) ≤ 2 * (f * 2 ^ 1074) + fr * 2 ^ SSVerif.Dbl.ulpB f fr ∧
+       2 * (f * 2 ^ 1074) ≤ 2 * (SSVerif.Dbl.roundVal f fr * fr) + fr * 2 ^ SSVerif.Dbl.ulpB f fr) ∧
+      (2 * SSVerif.Dbl.roundVal Z.natAbs (2 ^ 1074) ≤ 2 * Z.natAbs + 2 ^ SSVerif.Dbl.ulpB Z.natAbs (2 ^ 1074) ∧
+       2 * Z.natAbs ≤ 2 * SSVerif.Dbl.roundVal Z.natAbs (2 ^ 1074) + 2 ^ SSVerif.Dbl.ulpB Z.natAbs (2 ^ 1074)) ∧
+      (Z ≠ 0 → 2 * (k * 2 ^ 1074) ≤ 2 * (1000 * SSVerif.Dbl.roundVal Z.natAbs (2 ^ 1074)) + 2 ^ 1074 ∧
+               2 * (1000 * SSVerif.Dbl.roundVal Z.natAbs (2 ^ 1074)) ≤ 2 * (k * 2 ^ 1074) + 2 ^ 1074) ∧
+      (Z = 0 → k = 0) ∧
+      readMilli ((fmtOf (valOf start prob)).num (.time (f : Int) (fr : Int))) = some (neg, k) ∧
+      neg = decide (Z < 0) :=
+  SSVerif.Dbl.begin_budget start hs f fr hfr hf
+
+/-- the unit in the last place of a rounded value is the denormal unit or at most `2^-52` of the value -/
+theorem C14_ulp_relative (num den : Nat) :
+    SSVerif.Dbl.ulpB num den = 0 ∨ 2 ^ (SSVerif.Dbl.ulpB num den + 52) ≤ num * 2 ^ 1074 / den :=
+  SSVerif.Dbl.ulpB_rel num den
+
 /-! ### non-vacuity -/
 
 -- 0.0625 = 2^-4 is an exact half of a thousandth: ties to even give 0.062; 0.1875 gives 0.188
@@ -314,5 +359,8 @@ example : 1000 * 153 = 1530 * 100 ∧ fmtBits (SSVerif.Dbl.timeBits 0 153 100) =
 -- 2 frames at 3 frames/s: 0.6666… prints as 0.667, and |667/1000 − 2/3| = 1/3000 is inside the bound
 example : readMilli (fmtBits (SSVerif.Dbl.ratioBits 2 3)) = some (false, 667) ∧
     2048 * (2 * (667 * 3)) ≤ 2048 * (2000 * 2) + 2049 * 3 := by decide +kernel
+-- start -3.25, frames 46 ≤ 64 at 100 frames/s: "-2.790" then "-2.610"
+example : fmtBits (SSVerif.Dbl.timeBits 0xc00a000000000000 46 100) = [45, 50, 46, 55, 57, 48] ∧
+    fmtBits (SSVerif.Dbl.timeBits 0xc00a000000000000 64 100) = [45, 50, 46, 54, 49, 48] := by decide +kernel
 
 end SSVerif.Json
